@@ -83,9 +83,16 @@ void h_eventual_wait(void)
     /* caller: external thread (no local) or a yieldable ULT */
     void *val = (void *)0x55;
     ABT_bool ready0 = ev.ready;
-    unsigned w0 = vf_wl_waits, r0 = vf_releases;
-    lp_ABTI_local = NULL; /* external thread: the tasklet test is skipped */
+    unsigned w0 = vf_wl_waits, r0 = vf_releases, a0 = vf_acquires;
+    /* caller: an external thread, a ULT, or a tasklet (refused by the 1.x API) */
+    static ABTI_xstream cxs; static ABTI_thread cth; int kind; VF_ASSUME(0 <= kind && kind <= 2);
+    cxs.p_thread = &cth; cth.type = (kind == 1) ? ABTI_THREAD_TYPE_YIELDABLE : 0; lp_ABTI_local = kind == 0 ? NULL : (ABTI_local *)&cxs;
     int r = ABT_eventual_wait((ABT_eventual)&ev, &val);
+    if (kind == 2) {
+        VF_ASSERT(r == ABT_ERR_EVENTUAL && vf_wl_waits == w0 && val == (void *)0x55, "a tasklet may not wait: refused, nothing enqueued, no value handed out");
+        VF_ASSERT(vf_lock_held == 0 && vf_acquires - a0 == vf_releases - r0, "... and the eventual's lock is not left held");
+        VF_REACH("eventual_wait refused"); return;
+    }
     ready0 = vf_ready_at_acq; /* what was found under the lock */
     VF_ASSERT(r == ABT_SUCCESS && vf_lock_held == 0 && vf_releases == r0 + 1, "lock released exactly once");
     VF_ASSERT(vf_wl_waits == w0 + (ready0 == ABT_FALSE ? 1 : 0), "waits iff the eventual was seen not ready under the lock");
@@ -114,8 +121,9 @@ void h_eventual_test(void)
 
 void h_eventual_reset(void)
 {
-    setup();
+    setup(); ABTI_waitlist wl0 = ev.waitlist;
     int r = ABT_eventual_reset((ABT_eventual)&ev);
+    VF_ASSERT(ev.waitlist.p_head == wl0.p_head && ev.waitlist.p_tail == wl0.p_tail && ev.waitlist.futex.val.val == wl0.futex.val.val, "reset does not touch the wait list: in particular the futex word, the generation counter that sleeping external waiters compare against, is never set back");
     VF_ASSERT(r == ABT_SUCCESS && ev.ready == ABT_FALSE && vf_lock_held == 0, "reset: not ready, lock released");
     VF_ASSERT(vf_ready_at_rel == ABT_FALSE && ev.ready == vf_ready_at_rel, "the flag is cleared inside the critical section: in place when the lock is released, not written afterwards (a reset cannot interleave with a set)");
     VF_ASSERT(ev.value == (ev.nbytes ? (void *)buf : NULL), "buffer pointer kept");
